@@ -1,5 +1,6 @@
 //! vcheck: bounded exhaustive exploration of georust/geo against exact reference models.
 //! usage: vcheck <Cxx> [--tier quick|thorough] [--replay <file>]
+mod bigf;
 mod build;
 mod engine;
 mod enumr;
